@@ -11,7 +11,7 @@ _c37_build = dict(
 )
 
 target('c37_toolbox', ['engines/comp/c37_toolbox.cpp', 'engines/comp/c37_uecc_unit.cpp'],
-       quick=dict(cases=16000, size=100), thorough=dict(cases=800000, size=100), **_c37_build)
+       quick=dict(cases=40000, size=100), thorough=dict(cases=800000, size=100), **_c37_build)
 
 prop('C37', ['c37_toolbox'], 'comp',
      rule='rapidcheck generates 1..4 toolbox calls per case: session key, c1, s1, f4, f5, f6, g2 with uniform 128/256 bit operands '
@@ -32,7 +32,7 @@ prop('C37', ['c37_toolbox'], 'comp',
                   'rapidcheck, g++ 12 ASan/UBSan and the reference implementation are trusted'])
 
 target('c38_passkey', ['engines/comp/c37_toolbox.cpp', 'engines/comp/c37_uecc_unit.cpp'],
-       quick=dict(cases=6400, size=100), thorough=dict(cases=64000, size=100, opts={'uniform_weight': '4'}), **_c37_build)
+       quick=dict(cases=16000, size=100), thorough=dict(cases=64000, size=100, opts={'uniform_weight': '4'}), **_c37_build)
 
 prop('C38', ['c38_passkey'], 'comp',
      rule='rapidcheck generates the octet stream of the emulated RNG -- a pattern (constant 0xff / 0x00 / ..., little endian numbers '
